@@ -495,8 +495,19 @@ def wrapper_worker(part, job):
             mols = c.symmetry_unique_molecules()
             inside = [np.asarray(mm.positions) for mm in mols]
             outside = []
-            for (mm, ne, npos) in c.molecule_environments(radius=8.0):
-                outside.append(np.asarray(npos) if which == "crystal-hirshfeld" else np.zeros((0, 3)))
+            # the neighbours that must stay outside each Hirshfeld surface are found by brute force from the unit-cell atoms
+            # (not through molecule_environments, which the library's own surface construction uses)
+            uc = c.unit_cell_atoms()
+            M = np.asarray(c.unit_cell.direct, dtype=float)
+            reach = [int(np.ceil(8.0 / w)) + 1 for w in 1.0 / np.linalg.norm(np.linalg.inv(M), axis=0)]
+            shifts = np.array(list(itertools.product(*[range(-r - 1, r + 2) for r in reach])), dtype=float)
+            allpos = ((np.asarray(uc["frac_pos"])[None, :, :] + shifts[:, None, :]).reshape(-1, 3)) @ M
+            for ins_ in inside:
+                if which != "crystal-hirshfeld":
+                    outside.append(np.zeros((0, 3)))
+                    continue
+                dmin = np.min(np.linalg.norm(allpos[:, None, :] - ins_[None, :, :], axis=2), axis=1)
+                outside.append(allpos[(dmin > 1e-3) & (dmin <= 8.0)])
     except Exception as e:
         part.fail("wrapper-raise:%s" % which, "%s wrapper (%s) raised %s: %s" % (which, arg, type(e).__name__, str(e)[:100]), case)
         return
